@@ -54,6 +54,12 @@ def handle (op : String) (args : List String) (impl : String) : Option Verdict :
     let sfail := m.any (fun l => l.2.any (fun o => match o.store with | some (_, false) => true | _ => false))
     let rescan := m.any (fun l => l.2.any (fun o => o.store.isSome))
     return ⟨showHist m, ok, s!"{op}:{kindStr kind}:lifes={min ls.length 3}:flags={flags}:crash={crashed}:panic={panics}:hfail={hfail}:sfail={sfail}:progress={rescan}"⟩
+  | "evmdeposits", [calls] => some <| Id.run do
+    -- history-free: every call returns and forwards exactly the deposits of its own range that can be resolved
+    let cs := calls.splitOn "/"
+    let exp := cs.map fun c => s!"ok:{((items c ",").filter (· == "r")).length}"
+    let m := ";".intercalate exp
+    return ⟨m, impl == m, s!"evmdeposits:calls={min cs.length 4}:unresolvable={calls.contains 'u' || calls.contains 'm'}"⟩
   | "hfetch", [handler, failAt] => some <| Id.run do
     let fails := performs handler failAt
     -- a node that answers without error and without a block: the nil dereference is a panic (process death), never success
